@@ -3,3 +3,5 @@ import DTML.Gen
 import DTML.Batch
 import DTML.Props.C11
 import DTML.Props.C12
+import DTML.Quote
+import DTML.Props.C03
